@@ -133,7 +133,16 @@ def _random(draw):
             cand = alltr
         k = draw(st.integers(0, min(8, len(cand))))
         idxs = draw(st.lists(st.integers(0, len(cand) - 1), min_size=k, max_size=k, unique=True)) if cand else []
-        return {"kind": "triples", "leaves": leaves, "triples": [cand[i] for i in idxs]}
+        case = {"kind": "triples", "leaves": leaves, "triples": [cand[i] for i in idxs]}
+        if draw(st.booleans()):
+            # leaf labels are arbitrary strings for these routines (they take and return labels, not Newick text)
+            pool = ["sp:1", "g(3)", "a,b", "x;y", "[k]", "p=q", "two words", "tab\there", "s_1", "s:1", "\u00e9t\u00e9", "'q'", "0", ""]
+            pick = draw(st.permutations(pool))
+            ren = {l: pick[i] for i, l in enumerate(leaves)}
+            case["leaves"] = [ren[l] for l in leaves]
+            case["triples"] = [[ren[x] for x in tr] for tr in case["triples"]]
+            case["hostile_labels"] = True
+        return case
     if which == "supertree":
         from .. import gen
         n = draw(st.integers(3, 7))
